@@ -10,6 +10,7 @@ import Snmp.Lemmas.BerDecode
 import Snmp.Lemmas.BerInt
 import Snmp.Lemmas.BerTree
 import Snmp.Lemmas.GlueLemmas
+import Snmp.Model.Agent
 namespace Snmp.Props.C06
 open Snmp Snmp.Ber
 
@@ -194,6 +195,32 @@ theorem C06_message_readback (e : Enc) (m : Ops.RespMsg) (cls : String) (h : Glu
   unfold Glue.msgOfBytes
   rw [C06_datagram_decode e hwf fuel depth hw hd, htree]
   exact hmsg
+
+/-- the record the client reads from a datagram, as the network's answer to an operation -/
+def fromWire (data : Bytes) (fuel depth : Nat) : Except Err Ops.RespMsg :=
+  match Glue.msgOfBytes data fuel depth with
+  | some (m, _) => .ok m
+  | none => .error (.other "decode")
+
+/-- **From the octets on the wire to the caller's result**, v2c multi-GET against a conformant
+    agent: the agent holds `db`, answers the request for `oids` with the record `m` (its bindings
+    are `Agent.getResp db oids`, it echoes the request id, version 1, the client's community, no
+    error) and writes that record in BER with any mix of definite length forms (`WritesMsg`).  The
+    client — decoder, unpacking glue, wrapper checks, id check, `multiget` — returns exactly the
+    agent's values for exactly the requested OIDs, in order. -/
+theorem C06_multiget_from_wire (db : List VarBind) (oids : List Oid) (community : Bytes) (rid : Int)
+    (e : Enc) (m : Ops.RespMsg) (cls : String) (hw : Glue.WritesMsg e m cls)
+    (hver : m.version = 1) (hcom : m.community = community) (hrid : m.pdu.requestId = rid)
+    (hes : m.pdu.errorStatus = 0) (hvb : m.pdu.varbinds = Agent.getResp db oids)
+    (fuel depth : Nat) (hwd : e.width ≤ fuel) (hd : e.depth ≤ depth) :
+    (Ops.multiget (.v2c community) oids).result rid (fromWire e.bytes fuel depth)
+      = .ok ((Agent.getResp db oids).map (·.2)) := by
+  unfold fromWire
+  rw [C06_message_readback e m cls hw fuel depth hwd hd]
+  have hrecv : Ops.recv (.v2c community) rid (.ok m) = .ok m.pdu := by
+    simp [Ops.recv, Ops.mpmDecode, Ops.forcePdu, hver, hcom, hes, hrid, bind, Except.bind, pure, Except.pure]
+  simp only [Ops.multiget, bind, Except.bind, hrecv, hvb]
+  simp [Agent.getResp, pure, Except.pure]
 
 /-- the OID part of the value statement without the domain restriction of `InDomain` -/
 def C06_oid_statement : Prop :=
